@@ -12,6 +12,8 @@ import (
 	"fmt"
 	"strconv"
 	"strings"
+	"sync"
+	"sync/atomic"
 	"testing"
 	"time"
 
@@ -287,6 +289,65 @@ func TestBindSchedule(t *testing.T) {
 				run(bschedOps(il, srv))
 			}
 		}
+	}
+	// free-running search for a failing schedule where no yield point sits in the window: N peers bind the same unbound
+	// server feature through a barrier, many rounds; SPEC: never more than one binding, exactly one request granted
+	{
+		const n = 4
+		w := newRegWorld(n, ev, base)
+		rounds := h.Scale(4000, 40000)
+		srv := h.FA("HEMS", []uint{1}, 1)
+		for round := 0; round < rounds; round++ {
+			var start int32
+			var wg sync.WaitGroup
+			ctrs := map[int]uint64{}
+			for p := 1; p <= n; p++ {
+				w.ctr[p]++
+				ctrs[p] = w.ctr[p]
+				cc := model.CmdClassifierTypeCall
+				ack := true
+				b, _ := json.Marshal(model.Datagram{Datagram: model.DatagramType{Header: model.HeaderType{AddressSource: h.FA(regDev(p), []uint{0}, 0), AddressDestination: h.FA("HEMS", []uint{0}, 0),
+					MsgCounter: util.Ptr(model.MsgCounterType(ctrs[p])), CmdClassifier: &cc, AckRequest: &ack}, Payload: model.PayloadType{Cmd: []model.CmdType{{
+					NodeManagementBindingRequestCall: spine.NewNodeManagementBindingRequestCallType(regAddr(p, "1", 1), regAddr(99, "1", 1), model.FeatureTypeTypeLoadControl)}}}}})
+				rd := w.rds[p]
+				wg.Add(1)
+				go func() {
+					defer wg.Done()
+					for atomic.LoadInt32(&start) == 0 {
+					}
+					h.Recover(func() { _, _ = rd.HandleSpineMesssage(b) })
+				}()
+			}
+			atomic.StoreInt32(&start, 1)
+			wg.Wait()
+			w.out = w.log.take()
+			oks := 0
+			var winners []int
+			for p := 1; p <= n; p++ {
+				if w.resultFor(p, ctrs[p]) == "ok" {
+					oks++
+					winners = append(winners, p)
+				}
+			}
+			nb := len(w.l.BindingManager().BindingsOnFeature(*srv))
+			r.Eval("stress-round", "")
+			if nb > 1 || oks != 1 || nb != oks {
+				r.SpecFail("C09/two-bindings-under-free-running-requests", []string{fmt.Sprintf("stress: %d peers bind the unbound server feature 1/1 at once, round %d of %d", n, round, rounds)},
+					fmt.Sprintf("%d requests answered with success, %d bindings on the feature afterwards", oks, nb))
+				break
+			}
+			for _, p := range winners {
+				w.call(p, model.CmdType{NodeManagementBindingDeleteCall: spine.NewNodeManagementBindingDeleteCallType(regAddr(p, "1", 1), regAddr(99, "1", 1))})
+			}
+			if left := len(w.l.BindingManager().BindingsOnFeature(*srv)); left != 0 {
+				r.SpecFail("C09/delete-did-not-remove", []string{fmt.Sprintf("stress round %d", round)}, fmt.Sprintf("%d bindings left after the winner's delete", left))
+				break
+			}
+			w.out = nil
+			w.log.take()
+		}
+		w.close()
+		ev.take()
 	}
 	r.Exhaustive = true
 	r.Floor("requests parked at the yield point or completed", r.Dist["check:parked"]+r.Dist["check:ret ok"]+r.Dist["check:ret err"], r.Dist["check:parked"]+r.Dist["check:ret ok"]+r.Dist["check:ret err"]+r.Dist["check:blocked"], 0.99)
